@@ -39,6 +39,10 @@ func main() {
 		runC03()
 	case "C16":
 		runC16()
+	case "C08":
+		runC08()
+	case "C09":
+		runC09()
 	default:
 		fmt.Println("unknown property", *prop)
 		os.Exit(2)
